@@ -112,7 +112,19 @@ def rules(rep, prog):
             rep.bad(r_clamp, "centering", f.loc, "centering component not clamped to [0,1]: %s"
                     % details)
         else:
-            rep.unk(r_clamp, "centering", f.loc, "shape not recognised")
+            # not an aggregate: e.g. `centering.unwrap_or((0.5, 0.5))`
+            exprs = [sym.rvalue(rv, bb, (bb, j)) for (bb, j, rv, whole) in f.defs().get(cent[0], [])]
+            raw = [e for e in exprs if e[0] in ("call", "callat") and "clamp" not in fmt(e)
+                   and any(a[0] == "param" and a[2] == "centering"
+                           for a in (e[2] if e[0] == "call" else e[3]))]
+            if raw and len(raw) == len(exprs):
+                rep.bad(r_clamp, "centering", f.loc, "the centering that scales the margins is %s: "
+                        "the caller's value is used without clamp(0.0, 1.0), so a component outside "
+                        "[0, 1] moves the box out of the source (fit_src_into_dst_size and "
+                        "SrcCropping::FitIntoDestination are public, the builder is not the only "
+                        "way in)" % fmt(raw[0])[:100])
+            else:
+                rep.unk(r_clamp, "centering", f.loc, "shape not recognised")
     else:
         rep.unk(r_clamp, "centering", f.loc, "local `centering` not found")
     # full span
